@@ -587,7 +587,52 @@ func Structures() []Entry {
 		}
 	}, "r = root\n", "")
 
-	// --- completion hooks, populations around the limit -------------------------------------------
+	// --- required-field prefilling: snippets with many tab stops --------------------------------
+	add("prefill-required", func() *schema.BodySchema {
+		reqBody := func() *schema.BodySchema {
+			return &schema.BodySchema{
+				Attributes: map[string]*schema.AttributeSchema{
+					"a_map": {Constraint: schema.Map{Elem: schema.LiteralType{Type: cty.String}}, IsRequired: true},
+					"b_obj": {Constraint: schema.Object{Attributes: schema.ObjectAttributes{
+						"x": {Constraint: schema.LiteralType{Type: cty.String}, IsRequired: true},
+						"y": {Constraint: schema.LiteralType{Type: cty.Number}, IsRequired: true},
+						"z": {Constraint: schema.LiteralType{Type: cty.Bool}, IsOptional: true}}}, IsRequired: true},
+					"c_str":  {Constraint: schema.LiteralType{Type: cty.String}, IsRequired: true},
+					"d_list": {Constraint: schema.List{Elem: schema.LiteralType{Type: cty.Number}}, IsRequired: true},
+					"e_any":  {Constraint: schema.AnyExpression{OfType: cty.Bool}, IsRequired: true},
+					"f_opt":  {Constraint: schema.LiteralType{Type: cty.String}, IsOptional: true},
+				},
+				Blocks: map[string]*schema.BlockSchema{
+					"rb": {MinItems: 1, Labels: []*schema.LabelSchema{{Name: "l"}}, Body: &schema.BodySchema{
+						Attributes: map[string]*schema.AttributeSchema{"g": {Constraint: schema.LiteralType{Type: cty.String}, IsRequired: true}, "h": {Constraint: schema.LiteralType{Type: cty.Number}, IsRequired: true}},
+						Blocks: map[string]*schema.BlockSchema{"rbb": {MinItems: 2, Body: &schema.BodySchema{Attributes: map[string]*schema.AttributeSchema{"i": {Constraint: schema.LiteralType{Type: cty.String}, IsRequired: true}}}}},
+					}},
+					"ob": {Body: &schema.BodySchema{}},
+				},
+			}
+		}
+		return &schema.BodySchema{
+			Attributes: map[string]*schema.AttributeSchema{
+				"top_obj": {Constraint: schema.Object{Attributes: schema.ObjectAttributes{
+					"p": {Constraint: schema.LiteralType{Type: cty.String}, IsRequired: true},
+					"q": {Constraint: schema.List{Elem: schema.LiteralType{Type: cty.String}}, IsRequired: true}}}, IsOptional: true},
+			},
+			Blocks: map[string]*schema.BlockSchema{
+				"res": {Labels: []*schema.LabelSchema{{Name: "type", IsDepKey: true, Completable: true}, {Name: "name"}},
+					Body: &schema.BodySchema{Attributes: map[string]*schema.AttributeSchema{"st": {Constraint: schema.LiteralType{Type: cty.String}, IsRequired: true}}},
+					DependentBody: map[schema.SchemaKey]*schema.BodySchema{
+						depKey([]schema.LabelDependent{lbl(0, "full")}, nil):  reqBody(),
+						depKey([]schema.LabelDependent{lbl(0, "empty")}, nil): {},
+					}},
+				"plain": {Labels: []*schema.LabelSchema{{Name: "n"}}, Body: reqBody()},
+			},
+		}
+	},
+		"res \"\" {\n}\n",
+		"res \"f\" \"n\" {\n  \n}\nplain \"p\" {\n  \n}\n",
+		"\n",
+		"top_obj = \n",
+	)
 	return out
 }
 
